@@ -7,6 +7,10 @@ props = [json.loads(l) for l in open(os.path.join(V, 'properties.jsonl'))]
 TRUST = "Trusted: go/types and go/ssa (x/tools v0.29.0) as a faithful view of /repo's working tree; anchor names (functions, fields) listed in the rule files; std library contracts; reviewed tables rules/exceptions.json. Loops are abstracted to 0/1 iterations in decision-list rules."
 
 CLAIMS = {
+ "C02": dict(
+   technique="structural order-preservation rules on SSA: forward child loops, who-writes/how-writes rule for the sequence-carrying fields (append-to-self / shift-left delete idiom only), disjoint-window rule for the text builder, loop transition extraction of the emitters, must-pass-through of flushBlock",
+   text="Decides that no step between the document-order walk and the concatenated output can reorder or duplicate: children are visited and attached first-to-last, the five sequence fields are only appended to or shrunk by the shift-left idiom and never sorted or overwritten, each Text gets a disjoint window of the collected nodes, emitters walk forward and skip exactly non-content elements, non-text elements flush pending text first, and captions/table text are rendered from the clone by the visibility-aware renderer. Not decided: which words are selected, and fabrication inside third-party code.",
+   design="4/C02"),
  "C03": dict(
    technique="sibling-iteration loop discovery on SSA + effect summaries (PEA, callbacks closed over the call graph) for iterator invalidation; table extraction for inline-tag handling; who-writes rule for the flush flag; loop transition extraction for ApplyToModel",
    text="Decides the structural causes by which a simple paragraph could be cut: (I1) no sibling walk anywhere in the analysed program can have its cursor's link rewritten by a call made before the cursor advances (the WalkNodes defect class), (I2) the nine simple inline tags are inline, never flush or label a block, are never dropped unconditionally, and only SkipNode/StartNode raise the flush flag, (I3) a content block marks every one of its Text elements. Not decided: the classifier's content decision itself.",
